@@ -1548,9 +1548,15 @@ class StateEngine(object):
 
                             """
                             Tidy up self.branch_metadata for current execution_arn
-                            before republishing the Task state event.
+                            before republishing the state event. This is only
+                            needed when the state being retried is itself a
+                            Parallel or Map state (the branches of its failed
+                            attempt have to be released). When a state *inside*
+                            a branch is retried its siblings are still live and
+                            their events must stay held.
                             """
-                            if execution_arn in self.branch_metadata:
+                            if ((state_type == "Parallel" or state_type == "Map") and
+                                execution_arn in self.branch_metadata):
                                 self.check_pending_results(execution_arn)
 
                             """
